@@ -328,8 +328,24 @@ def exec_step(rig, label, succ, tag, ctlname, tamper=None):
             it = succ['delivered'][0]
             feeder = rig.child_output(rig.out_prefix() + inst.out_bytes(it))
             end = inst.end(it)
+            # LogReadExact at an intermediate point: a read that asks for less than the transport already holds
+            # delivers only that much - and only that much may be in the read log (logfile_read, logfile)
+            partial = inst.T()
+            if tag % 3 == 0 and feeder is None:
+                lg = rig.logs.get('read')
+                joined = lambda: inst.T().join(w for w in lg.writes if isinstance(w, inst.T)) if lg is not None else None
+                log0 = joined()
+                t_end = time.time() + 10
+                while len(partial) < 3 and time.time() < t_end:
+                    try:
+                        partial += c.read_nonblocking(3 - len(partial), 0.2)
+                    except pexpect.TIMEOUT:
+                        pass
+                if lg is not None and joined()[len(log0):] != partial:
+                    add('C11:logfile_read', {'what': 'after a read that asked for 3 characters the read log does not hold exactly what that read delivered',
+                                             'delivered_by_this_read': short(partial), 'logged_since': short(joined()[len(log0):])})
             c.expect_exact(end if inst.T is str else end.encode(), timeout=30)
-            before = c.before
+            before = partial + c.before
         else:
             raise ValueError(label)
     except (pexpect.TIMEOUT, pexpect.EOF) as e:
